@@ -54,6 +54,7 @@ type Obligation struct {
 	NAsserts  int
 	NDecls    int
 	ExpectSat bool
+	QFCover   bool // ExpectSat over the quantifier-free assumptions plus Reach: this exit is not excluded by a contradiction
 	Pos       string
 	Src       string
 	Inlined   bool
@@ -1058,12 +1059,12 @@ func (c *Ctx) execInstr(fr *Frame, st *State, ins ssa.Instruction) []*exitInfo {
 		c.safety(fr, "make.len", x, and(app("<=", "0", ln.Term), app("<=", ln.Term, cp.Term)))
 		et := x.Type().Underlying().(*types.Slice).Elem()
 		ref := c.allocRef(st, "mk")
-		c.assumeAlways(eq(app("rtype", ref), num(int64(c.prog.typeTag(x.Type())))))
+		c.assume(eq(app("rtype", ref), num(int64(c.prog.typeTag(x.Type())))))
 		c.zeroElems(st, et, ref)
 		c.set(fr, x, &Val{T: x.Type(), Term: app("mkSlice", ref, "0", ln.Term, cp.Term)})
 	case *ssa.MakeMap:
 		ref := c.allocRef(st, "map")
-		c.assumeAlways(eq(app("rtype", ref), num(int64(c.prog.typeTag(x.Type())))))
+		c.assume(eq(app("rtype", ref), num(int64(c.prog.typeTag(x.Type())))))
 		mt := x.Type().Underlying().(*types.Map)
 		hs, vs, _, _ := c.mapComps(mt)
 		p := &Ptr{Comp: hs, Dim: 1, Ref: ref, T0: types.Typ[types.Bool], Elem: types.Typ[types.Bool]}
@@ -1202,7 +1203,7 @@ func (c *Ctx) execAlloc(fr *Frame, st *State, x *ssa.Alloc) {
 		return
 	}
 	ref := c.allocRef(st, "new_"+x.Comment)
-	c.assumeAlways(eq(app("rtype", ref), num(int64(c.prog.typeTag(x.Type())))))
+	c.assume(eq(app("rtype", ref), num(int64(c.prog.typeTag(x.Type())))))
 	p := c.refPtr(et, ref)
 	switch u := et.Underlying().(type) {
 	case *types.Array:
